@@ -52,7 +52,30 @@ Definition nary_tree (tid : nat) (ro : roster G) (N root : nat) : option (stree 
   | Some t => Some (mkTree tid (Some ro) (with_aggs gadd t))
   end.
 
+(* ---------- trees extended by hand ------------------------------------------------------------
+
+   TreeNode.AddChild appends a child to a node of an existing tree (here: the node reached by
+   following [path] = child positions from the root; a position that does not exist leaves the
+   tree as it is). The nodes keep whatever aggregate an earlier NewTree stored in them.
+   NewTree afterwards = [with_aggs] again on the same nodes. *)
+Fixpoint add_child (path : list nat) (c : tnode G) (n : tnode G) : tnode G :=
+  match n with
+  | Node id srv i g ch =>
+      match path with
+      | [] => Node id srv i g (ch ++ [c])
+      | k :: r =>
+          Node id srv i g
+            ((fix go (j : nat) (l : list (tnode G)) : list (tnode G) :=
+                match l with
+                | [] => []
+                | x :: l' => (if j =? k then add_child r c x else x) :: go (S j) l'
+                end) 0 ch)
+      end
+  end.
+
 End Gen.
+
+Arguments add_child {G}.
 
 Arguments nary_node {G}.
 Arguments nary_tree {G}.
